@@ -153,7 +153,12 @@ Definition mstep (m : ms) (o : cobs) : ms :=
       let m := flag V_END_TWICE (N.eqb (m_ncb m) 0) m in
       m <| m_ncb := sat2 (m_ncb m + 1) |> <| m_term := true |>
   | BPanic => flag V_PANIC false m
-  | BHang | BFuel => flag V_HANG false m
+  | BFuel => flag V_HANG false m
+  | BHang =>
+      (* the harness gave up waiting: if that was the wait for the goroutines after a terminal
+         outcome, the connection was not closed (C04) *)
+      let m := flag V_HANG false m in
+      flag V_NOT_CLOSED_AFTER_TERMINAL (negb (m_isdef m && m_term m) || m_closed m) m
   | BSnap s _ armed _ _ =>
       (* at rest *)
       let m := flag V_TIMER_AFTER_TERMINAL (negb (m_term m) || negb armed) m in
